@@ -204,6 +204,21 @@ def r6_target_derivation(ctx):
     ctx.ob("R17.6", "determine_target:default-ports-80-and-443-for-https", okp, "", "default port 80, 443 under starts_with(\"https://\")" if okp else "default port handling is not {80, 443 for https}")
 
 
+def r7_parsing_totality(ctx):
+    from .common import never_err
+    shp = ctx.body("R17.7", HP + "split_host_port")
+    if shp is not None:
+        ok = never_err(shp)
+        ctx.ob("R17.7", "split_host_port:falls-back-to-the-default-port", ok, "", "split_host_port always returns Ok: a suffix that is not a port (the inside of a bracketed IPv6 literal) means 'no port given'" if ok else
+               "split_host_port can fail: an authority whose last `:` is not followed by a port — a bracketed IPv6 literal without a port such as [::1] or http://[2001:db8::1]/ — is refused instead of getting the default port")
+    pr = ctx.body("R17.7", HP + "parse_http_request")
+    if pr is not None:
+        bad = [c for c in pr.calls() if (c.norm or "").split("::")[-1] in ("take", "skip", "step_by", "take_while", "skip_while", "nth", "truncate", "dedup", "sort", "rev", "last", "pop", "swap_remove", "remove", "drain")
+               and ("Iterator" in (c.norm or "") or "Vec" in (c.norm or ""))]
+        ctx.ob("R17.7", "parse_http_request:keeps-every-header-line", not bad, bad[0].site if bad else "", "the header lines are collected with map/filter(non-empty) only" if not bad else
+               "parse_http_request applies `%s` to the header lines: lines are silently dropped or reordered (a cap that truncates instead of rejecting loses the rest of the header block, including a late Host header)" % bad[0].norm.split("::")[-1])
+
+
 def r4_rewriting(ctx):
     body = ctx.body("R17.4", HP + "build_forward_request")
     if body is None:
@@ -251,6 +266,7 @@ def run(ctx):
     r3_bounded_header(ctx)
     r3b_scan_window(ctx)
     r6_target_derivation(ctx)
+    r7_parsing_totality(ctx)
     r4_rewriting(ctx)
     C16.accept_loop_rules(ctx, "R17.5", HP + "start_http_proxy_server", "http_proxy::handle_http_proxy_connection", "http")
     C07.r4_plumbing(ctx)
